@@ -68,6 +68,9 @@ type pcase struct {
 	Flip []string `json:"flipVersion,omitempty"`
 	// Beta lists the steps whose function serves only the v1beta1 RunFunction API
 	Beta []int `json:"betaOnlySteps,omitempty"`
+	// GCFault: the first plain Update of a composed resource in the reconcile under test (the
+	// collector's label clean-up before a delete) fails with this outcome
+	GCFault string `json:"gcFault,omitempty"`
 }
 
 func (p *pcase) failing() (bool, int, string) {
@@ -147,6 +150,9 @@ func genCase(c *kit.Ctx, i int) pcase {
 		p.ObserveErr = true
 	}
 	p.BehindCache = r.IntN(4) == 0
+	if failAt < 0 && !p.ObserveErr && r.IntN(3) == 0 {
+		p.GCFault = []string{"conflict", "unavailable", "servererror"}[r.IntN(3)]
+	}
 	for st := 0; st < ns; st++ {
 		if r.IntN(4) == 0 {
 			p.Beta = append(p.Beta, st)
@@ -164,6 +170,7 @@ type worker struct {
 	c    *kit.Ctx
 	fns  []*xrk.FnServer
 	bfns []*xrk.FnServer // the same programs behind servers that only speak v1beta1
+	ptFn *xrk.FnServer   // a function that returns its input: listed, but never to be run, by P&T compositions
 	mu   sync.Mutex
 	cur  *pcase
 	init bool // true while composing the initial set
@@ -184,6 +191,10 @@ func newWorker(c *kit.Ctx, id int) *worker {
 		b.Set(func(req *fnv1.RunFunctionRequest) (*fnv1.RunFunctionResponse, error) { return w.program(step, req) })
 		w.bfns = append(w.bfns, b)
 	}
+	w.ptFn = xrk.NewFnServer(false)
+	w.ptFn.Set(func(req *fnv1.RunFunctionRequest) (*fnv1.RunFunctionResponse, error) {
+		return &fnv1.RunFunctionResponse{Desired: req.GetDesired()}, nil
+	})
 	// base world: XRD, four functions, compositions with 1..4 steps
 	bw := sim.NewWorld(xrk.Scheme(), uint64(c.Seed)*100+uint64(id))
 	w.xrd = xrk.XRDObject(xrk.XRDOpts{Group: "ex.org", Kind: "XThing", Plural: "xthings"})
@@ -439,6 +450,18 @@ func (w *worker) runCase(i int, name string) {
 			env.C.FaultFn = ff
 		}
 	}
+	if p.GCFault != "" {
+		done := false
+		out := map[string]sim.Outcome{"conflict": sim.Conflict, "unavailable": sim.Unavailable, "servererror": sim.ServerError}[p.GCFault]
+		ff := func(_ int, verb string, k sim.Key) sim.Outcome {
+			if !done && verb == "update" && isComposedKind(k) {
+				done = true
+				return out
+			}
+			return sim.OK
+		}
+		env.C.FaultFn, uncached.FaultFn = ff, ff
+	}
 	from := world.LogLen()
 	_, rerr, _ := env.Reconcile("xr1")
 	env.C.FaultFn, uncached.FaultFn = nil, nil
@@ -512,7 +535,20 @@ func (w *worker) runCase(i int, name string) {
 				c.Violate("deleted-not-observed-by-xr", name, fmt.Sprintf("delete issued for %q which is not a resource observed by this XR (foreign-controlled or unknown): %v", n, deletes), witness())
 			}
 		}
-		if rerr == nil {
+		// the reconcile composed successfully iff it went on to report Synced=True in a status write
+		// (a compose error ends in Synced=False, a conflict in a silent requeue without status write)
+		succeeded := false
+		for _, e := range log {
+			if e.Key == xrKey && e.Sub == "status" && e.IsWrite() && e.Err == "" && e.After != nil {
+				conds, _, _ := unstructured.NestedSlice(e.After, "status", "conditions")
+				for _, cd := range conds {
+					if m, ok := cd.(map[string]any); ok && m["type"] == "Synced" {
+						succeeded = m["status"] == "True"
+					}
+				}
+			}
+		}
+		if rerr == nil && succeeded {
 			for n := range want {
 				if !deletedNames[n] {
 					c.Violate("undesired-not-deleted", name, fmt.Sprintf("composition succeeded, %q was observed and is absent from the desired state but no delete was issued (deletes: %v)", n, deletes), witness())
@@ -543,6 +579,10 @@ type ptCase struct {
 	Before  []string       `json:"before"`
 	After   []string       `json:"after"`
 	Perturb []perturbation `json:"perturb,omitempty"`
+	// ModeUnset: the Composition (and so its revisions) leaves spec.mode unset, which means
+	// Resources; StrayPipeline: it also lists pipeline steps, which are ignored outside Pipeline mode
+	ModeUnset     bool `json:"modeUnset,omitempty"`
+	StrayPipeline bool `json:"strayPipeline,omitempty"`
 }
 
 func genPT(c *kit.Ctx, i int) ptCase {
@@ -567,6 +607,8 @@ func genPT(c *kit.Ctx, i int) ptCase {
 			p.Perturb = append(p.Perturb, perturbation{Name: n, What: []string{"missing", "terminating", "uncontrolled", "duplicate-ref", "duplicate-ref"}[r.IntN(5)]})
 		}
 	}
+	p.ModeUnset = r.IntN(3) == 0
+	p.StrayPipeline = r.IntN(3) == 0
 	return p
 }
 
@@ -583,7 +625,17 @@ func (w *worker) runPT(i int, name string) {
 	p := genPT(c, i)
 	world := sim.NewWorld(xrk.Scheme(), uint64(c.Seed)*7919+uint64(i))
 	world.MustSeed("user", w.xrd)
-	world.MustSeed("user", xrk.ResourcesComposition("comp", "ex.org/v1", "XThing", templates(p.Before)))
+	comp0 := xrk.ResourcesComposition("comp", "ex.org/v1", "XThing", templates(p.Before))
+	if p.ModeUnset {
+		delete(comp0["spec"].(map[string]any), "mode")
+	}
+	if p.StrayPipeline {
+		for _, o := range xrk.FunctionObjects("fn-stray", w.ptFn.Addr) {
+			world.MustSeedFull("pkg", o)
+		}
+		comp0["spec"].(map[string]any)["pipeline"] = []any{map[string]any{"step": "ignored-outside-pipeline-mode", "functionRef": map[string]any{"name": "fn-stray"}}}
+	}
+	world.MustSeed("user", comp0)
 	if err := xrk.ReconcileComposition(world, "comp"); err != nil {
 		panic(err)
 	}
@@ -604,7 +656,11 @@ func (w *worker) runPT(i int, name string) {
 		}
 	})
 	if len(byName) != len(p.Before) {
-		c.Violate("harness:pt-initial-compose-incomplete", name, fmt.Sprintf("composed %d of %d", len(byName), len(p.Before)), p)
+		key := "harness:pt-initial-compose-incomplete"
+		if p.ModeUnset || p.StrayPipeline {
+			key = "pt-templates-not-composed:resources-mode-with-pipeline-listed"
+		}
+		c.Violate(key, name, fmt.Sprintf("a Resources-mode Composition (mode unset=%v, pipeline listed=%v) composed %d of its %d named templates", p.ModeUnset, p.StrayPipeline, len(byName), len(p.Before)), p)
 		return
 	}
 	for _, pt := range p.Perturb {
